@@ -131,7 +131,7 @@ class Frame:
 
 SAFE_BUILTINS = {k: getattr(_bi, k) for k in (
     'len', 'range', 'int', 'float', 'complex', 'str', 'bool', 'abs', 'min', 'max', 'sum', 'list', 'tuple', 'dict', 'set', 'enumerate', 'zip',
-    'sorted', 'reversed', 'all', 'any', 'round', 'divmod', 'map', 'filter', 'pow', 'repr', 'object', 'slice', 'frozenset', 'isinstance', 'type',
+    'sorted', 'reversed', 'all', 'any', 'round', 'id', 'divmod', 'map', 'filter', 'pow', 'repr', 'object', 'slice', 'frozenset', 'isinstance', 'type',
     'ValueError', 'TypeError', 'IndexError', 'NotImplementedError', 'Exception', 'KeyError', 'ZeroDivisionError', 'RuntimeError', 'AssertionError')}
 
 BINOPS = {ast.Add: _op.add, ast.Sub: _op.sub, ast.Mult: _op.mul, ast.Div: _op.truediv, ast.FloorDiv: _op.floordiv, ast.Mod: _op.mod,
